@@ -139,6 +139,9 @@ PROPS["C06"] = {
          "quick": {"params": "keys=3,constraints=1,leadnonkey=1", "workers": 16, "timeout": 1800},
          "thorough": {"params": "keys=4,constraints=2", "workers": 16, "timeout": 7200}},
         {"pkg": ".", "dir": "s3db", "entry": "VerifH_C20_notnull", "quick": {"workers": 4, "timeout": 600}},
+        {"pkg": ".", "dir": "s3db", "entry": "VerifH_C06_txn_same_time",
+         "quick": {"params": "stmts=2", "workers": 8, "timeout": 600},
+         "thorough": {"params": "stmts=3", "workers": 16, "timeout": 1800}},
         {"pkg": ".", "dir": "s3db", "entry": "VerifH_C06_scan", "tag": "-2cons",
          "quick": {"params": "keys=2,constraints=2,maxlayer=1,nulls=0,reopen=0,dels=1,orders=3", "workers": 16, "timeout": 1200}},
     ],
